@@ -45,7 +45,7 @@ NOTES = {
 
 def seed_table():
     d = os.path.join(VERIF, "seeded")
-    rows = ["| id | what it needs to manifest (agent's words, abridged) | caught at first run by | after strengthening |", "|---|---|---|---|"]
+    rows = ["| id | what it needs to manifest (agent's words, abridged) | quick checks that reported it at the first run | after strengthening / thorough tier |", "|---|---|---|---|"]
     n = first = 0
     for sid in sorted(os.listdir(d)):
         mp = os.path.join(d, sid, "meta.json")
@@ -61,7 +61,12 @@ def seed_table():
         after = ""
         if "after_strengthening" in m:
             after = "%s (%s)" % (", ".join(m["after_strengthening"]["caught_by"]), m["after_strengthening"]["what_was_strengthened"][:150].replace("|", "/"))
-        rows.append("| %s | %s | %s%s | %s |" % (sid, needs, ", ".join(cb) if cb else "**none**", "" if prim or not cb else " (not by %s itself)" % m["property"], after))
+        th = m.get("thorough_primary")
+        if th and not after:
+            after = "thorough tier of %s (ASan + Miri batch): %s" % (m["property"], "reported" if th.get("exit") == 1 else "NOT reported")
+            if m.get("note"):
+                after += " — " + m["note"][:160]
+        rows.append("| %s | %s | %s%s | %s |" % (sid, needs, ", ".join(cb) if cb else "**none (quick tier)**", "" if prim or not cb else " (not by %s itself)" % m["property"], after))
     rows.append("")
     rows.append("%d confirmed changes; %d were caught by their own property's quick check at the first run." % (n, first))
     return "\n".join(rows)
